@@ -67,6 +67,14 @@ Definition check_quota (pol : option policy) (u : uname) (m : metrics_map) (now 
 (* the server refuses the session (statusQuotaExhausted, Close) exactly when checkQuota returns ok = false *)
 Definition refused (r : qres) : bool := match r with QRefuse => true | _ => false end.
 
+(* the quota part of appctlcommon.ValidateServerConfigSingleUser (run on every user record before it is
+   installed): days > 0, days <= maxQuotaDays, megabytes > 0 *)
+Definition validate_quota (days mb : Z) : bool :=
+  (0 <? days) && (days <=? C19_MaxQuotaDays) && (0 <? mb).
+
+Definition validate_user_quotas (qs : list quota) : bool :=
+  forallb (fun q => validate_quota (q_days q) (q_mb q)) qs.
+
 (* ---- vocabulary of the theorems (predicates only) ---- *)
 
 (* largest number of days whose window length fits an int64 duration *)
